@@ -8,6 +8,7 @@
    c09_step); proofs: Proofs/W_C17.v. *)
 From VF Require Import Base.Prelude Model.Cache Model.Session Model.Middleware Corr.WorldCorr Spec.WorldSpec.
 From VF Require Import Proofs.WorldBase Proofs.VerifyProofs Proofs.ServeLemmas Proofs.SessionProofs Proofs.W_C17 Proofs.W_C17H Proofs.W_C17P Proofs.W_C03I Proofs.W_Example.
+From VF Require Import Proofs.W_C17Age.
 Open Scope N_scope.
 
 (* For every input of a ready instance: no panic flag, never the harness's
@@ -179,3 +180,26 @@ Proof.
     + intros [H|[H|[H|[H|[]]]]]; discriminate H.
     + intros H. lia.
 Qed.
+
+(* SESSIONS OLDER THAN THE 24-HOUR LIMIT.  A main cookie that opens under the configured key but whose session began
+   more than 24 h before the request is unusable like any other: on every gated path, for every ready instance state,
+   whatever else the jar holds (valid tokens, a refresh token) and whatever the provider would answer, the response
+   is the login redirect, nothing is forwarded and the provider is not contacted.  Only premise: the instance is
+   ready (C17_age_needs_ready shows it is needed: a not-ready instance answers 503). *)
+Theorem C17_overage_session : forall (E : env) (cfg : config) (st : inst) (now : time) (rq : request)
+                                     (rnd : istr * istr * istr) (ans : option answer),
+  i_ready st = true ->
+  c17_age_step E cfg (i_auth_url st) now rq (snd (serve E cfg st now rq rnd ans)) = true.
+Proof. exact c17_age_serve. Qed.
+Print Assumptions C17_overage_session.
+
+Theorem C17_overage_redirect : forall (E : env) (cfg : config) (st : inst) (now : time) (rq : request)
+                                      (rnd : istr * istr * istr) (ans : option answer),
+  i_ready st = true -> gated E cfg rq = true -> overage cfg now rq = true ->
+  let p := serve E cfg st now rq rnd ans in
+  fst p = st /\ is_auth_redirect (i_auth_url st) (snd p) = true /\ r_fwd (snd p) = None /\ r_calls (snd p) = [].
+Proof. exact c17_age_serve_redirect. Qed.
+Print Assumptions C17_overage_redirect.
+
+Example C17_age_nonvacuous := c17_age_nonvacuous.
+Example C17_age_needs_ready := c17_age_needs_ready.
